@@ -1,5 +1,6 @@
 import LenaModel.DriverUtil
 import LenaModel.Model.C03
+import LenaModel.Model.C03X
 /-! Model driver for C03.  Requests (one JSON object per line):
 
   {"op":"run","brs":[B..],"flow":[ints],"bufsizes":[n|null..],"copy_buf":bool}
@@ -44,7 +45,7 @@ def optNat (j : Json) : Option (Option Nat) :=
 def sqKind? : String → Option SqKind
   | "map" => some .map | "mapEnd" => some .mapEnd | "even" => some .even
   | "sumBlock" => some .sumBlock | "dup" => some .dup | "running" => some .running
-  | "lam" => some .lam | _ => none
+  | "lam" => some .lam | "cache" => some .cache | _ => none
 
 def bspec? (j : Json) : Option BSpec :=
   match str? (getD j "k") with
@@ -108,6 +109,85 @@ def runOne {σ : Type} (brs : List (Branch σ V)) (copyBuf : Bool) (flow : List 
     ("spec_out", ofList vJson (if brs.isEmpty then flow else outputs (s.schedule flow))),
     ("assert", Json.bool (tr.any (fun e => match e with | .assertFail => true | _ => false)))]
 
+/-! ### op "runx": exceptions, the objects after the run, consecutive runs, nested Splits run per block -/
+
+def hspec? (j : Json) : Option HSpec :=
+  (bspec? j).map (fun b =>
+    { base := b, pre := (bool? (getD j "pre")).getD false, post := (bool? (getD j "post")).getD false })
+
+def ospecX? (j : Json) : Option OSpecX :=
+  match str? (getD j "k") with
+  | some "nest" =>
+    match (arr? (getD j "inner")).bind (fun a => a.toList.mapM bspec?), optNat (getD j "bufsize") with
+    | some inner, some bs => some (.nest inner bs)
+    | _, _ => none
+  | _ =>
+    match hspec? j, optNat (getD j "boom_fill"), optNat (getD j "boom_gen") with
+    | some h, some bf, some bg => some (.plain { base := h, boomFill := bf, boomGen := bg })
+    | _, _, _ => none
+
+def bufArg? (j : Json) : Option BufArg :=
+  if j.isNull then some .none else
+  match (getD j "int").getInt?.toOption, (getD j "float_int").getInt?.toOption,
+      bool? (getD j "float_frac"), bool? (getD j "bool") with
+  | some i, _, _, _ => some (.int i)
+  | _, some i, _, _ => some (.floatInt i)
+  | _, _, some _, _ => some .floatFrac
+  | _, _, _, some b => some (.bool b)
+  | _, _, _, _ => none
+
+def bstateJson (b : BState) : Json :=
+  Json.mkObj [("v", ofList vJson b.filled), ("n", ofNat b.n), ("calls", ofNat b.calls), ("total", ofInt b.total)]
+
+def nstateJson : NStateX → Json
+  | .plain b => bstateJson b
+  | .nested brs => Json.mkObj [("inner", ofList (fun b => bstateJson b.st) brs)]
+  | .nestedRun s => Json.mkObj [("inner", ofList (fun b => bstateJson b.st) s.branches)]
+
+def termJson : Term String → Json
+  | .done => "done"
+  | .raised i e => Json.arr #["raised", ofNat i, Json.str e]
+  | .assertFail => "assert"
+  | .isliceError => "islice"
+
+def runXJson (ids : List Nat) (noBranches : Bool) (flow : List V) (r : RunX NStateX V String) : Json :=
+  Json.mkObj [("out", ofList vJson (if noBranches then flow else outputs r.trace)),
+    ("term", termJson r.term),
+    ("inv", ofList (fun i => ofList evJson (invocations i r.trace)) ids),
+    ("states", ofList (fun b => nstateJson b.st) r.seqs)]
+
+/-- the harness elements of a case without exceptions and nested Splits, as plain branches -/
+def mkHBranches (start : Nat) : List HSpec → List (Branch BState V)
+  | [] => []
+  | h :: rest => { id := start, kind := h.base.kind, ops := h.ops start, st := {} } :: mkHBranches (start + 1) rest
+
+def plainOnly? (osp : List OSpecX) : Option (List HSpec) :=
+  osp.mapM (fun o => match o with
+    | .plain x => if x.boomFill.isNone && x.boomGen.isNone then some x.base else none
+    | .nest _ _ => none)
+
+def handleRunX (j : Json) : Json :=
+  match (arr? (getD j "brs")).bind (fun a => a.toList.mapM ospecX?),
+      (arr? (getD j "flows")).bind (fun a => a.toList.mapM flow?), bufArg? (getD j "bufarg"),
+      bool? (getD j "copy_buf") with
+  | some osp, some flows, some ba, some cb =>
+    match bufArgInit ba with
+    | .error e => Json.mkObj [("init", excJson e)]
+    | .ok (bs, bad) =>
+      let brs := mkBranchesX 0 osp
+      let s : SplitX NStateX V String := { branches := brs, bufsize := bs, copyBuf := cb, badBufsize := bad }
+      let rs := runsX s flows
+      let ids := brs.map (·.id)
+      let runsJ := (rs.zip flows).map (fun (r, flow) => runXJson ids brs.isEmpty flow r)
+      -- the same consecutive runs through `Split.runObj` / `Split.runFull` (no exceptions, no nesting)
+      let objJ := match plainOnly? osp, bad with
+        | some hs, false =>
+          let sp : Split BState V := { branches := mkHBranches 0 hs, bufsize := bs, copyBuf := cb }
+          ofList (ofList vJson) (runsObj sp flows)
+        | _, _ => Json.null
+      Json.mkObj [("runs", Json.arr runsJ.toArray), ("obj_runs", objJ)]
+  | _, _, _, _ => err "bad runx args"
+
 def handle (j : Json) : Json :=
   match str? (getD j "op") with
   | some "run" =>
@@ -121,6 +201,7 @@ def handle (j : Json) : Json :=
       | some sp => Json.mkObj [("runs", ofList (runOne (mkHarnessBranches 0 sp) cb flow) bss)]
       | none => Json.mkObj [("runs", ofList (runOne (mkOuterBranches 0 osp) cb flow) bss)]
     | _, _, _, _ => err "bad run args"
+  | some "runx" => handleRunX j
   | some "methods" =>
     match brs? j, (arr? (getD j "blocks")).bind (fun a => a.toList.mapM flow?) with
     | some sp, some blocks =>
